@@ -463,9 +463,10 @@ func (w *World) Do(raw []byte, isHead bool) ClientView {
 	}
 	defer conn.Close()
 	conn.SetDeadline(time.Now().Add(20 * time.Second))
-	if _, err := conn.Write(raw); err != nil {
-		return ClientView{Framing: "noresponse"}
-	}
+	// A server may answer - and close - before it has read a large request body (ServeMux's own redirect, a 404 or 407 that
+	// needs no body): the rest of the write then fails. What was answered is still there to be read; a failed write is not
+	// "no response".
+	conn.Write(raw)
 	all, _ := ioutil.ReadAll(conn)
 	return ParseResponse(all, isHead)
 }
